@@ -8,6 +8,7 @@ sys.path.insert(0, os.environ.get('FXPMATH_VERIF_REPO', '/repo'))
 import numpy as np
 import pytest
 from fxpmath import Fxp, fxp_like, fxp_sum
+import fxpmath as fx
 
 
 def test_D1_equal_keeps_shape():
@@ -128,6 +129,61 @@ def test_D21_D22_wide_strings_parse_back():
     assert Fxp(np.array(x.bin(prefix='0b')), True, 63, 1, raw=True).val.tolist() == [-4611686018427387903, 1]
     u = Fxp(np.array([144115188075855871, 2 ** 63 + 1], dtype=object), False, 64, 0, raw=True)
     assert Fxp(u.bin(prefix='0b'), False, 64, 0, raw=True).val.tolist() == [144115188075855871, 2 ** 63 + 1]
+
+
+def test_D23_list_of_ints_in_the_uint64_band_saturates():
+    x = Fxp([2 ** 63, 2 ** 63], True, 1, 1)
+    assert x.val.tolist() == [0, 0] and x.status['overflow']
+
+
+def test_D24_astype_int_item():
+    assert Fxp([1.5, -2.25], True, 8, 2).astype(int, item=1) == -3
+
+
+def test_D25_integer_born_object_resized_reads_fractions():
+    x = Fxp(3, True, 8, 0)
+    x.resize(n_frac=2)
+    x.set_val(5, raw=True)
+    assert x.get_val() == 1.25 and float(x) == 1.25
+
+
+def test_D26_raw_product_into_a_far_out_format_saturates_on_its_own_side():
+    z = fx.mul(Fxp(2047, True, 12, 0), Fxp(2047, True, 12, 0), out=Fxp(0, True, 12, 41))
+    assert int(z.val) == 2047 and z.status['overflow']
+
+
+def test_D27_raw_modulo_with_far_apart_fractions():
+    z = fx.mod(Fxp(357913941, False, 30, 0, raw=True), Fxp(3, False, 40, 36, raw=True))
+    assert int(z.val) == 0
+
+
+def test_D28_bitwise_with_array_second_operand():
+    x = Fxp(np.array([5, 6, 7]), True, 8, 0, raw=True)
+    y = Fxp(np.array([3, 4, 5]), True, 8, 0, raw=True)
+    assert (x & y).val.tolist() == [1, 4, 5] and (x | y).val.tolist() == [7, 6, 7] and (x ^ y).val.tolist() == [6, 2, 2]
+
+
+def test_D29_conversion_from_fxp_saturates_beyond_64_bits():
+    a = Fxp(-32768, True, 16, 0)
+    t = Fxp(0, True, 52, 52)
+    lo = -2 ** 51
+    assert int(Fxp(a, True, 52, 52).val) == lo and int(a.like(t).val) == lo and int(t.equal(a).val) == lo
+    arr = Fxp([2 ** 30, -5], True, 32, 0)
+    d = Fxp([0, 0], True, 50, 40)
+    d[1] = arr[0]
+    assert d.val.tolist() == [0, 2 ** 49 - 1]
+
+
+def test_D30_astype_int_with_63_fraction_bits():
+    x = Fxp(np.zeros(2, dtype=np.int64), True, 63, 0)
+    x.resize(n_frac=63)
+    assert x.dtype == 'fxp-s63/63'
+    assert Fxp([0.0, -2.0 ** -50], True, 16, 63).astype(int).tolist() == [0, -1]
+
+
+def test_D31_array_of_decimal_strings_rounds_like_a_list():
+    x = Fxp(np.array(['2.7', '3']), True, 16, 0, rounding='around')
+    assert x.val.tolist() == [3, 3] and x.status['inaccuracy']
 
 
 @pytest.mark.xfail(reason='D12: known finding, see /verif/known_findings.json', strict=True)
